@@ -661,7 +661,16 @@ func (mw *mcastWorld) exec(f []string) {
 			}
 			res = fmt.Sprintf("%s %d", errClass(err), n)
 		case "peer":
-			s.peer.AsyncWrite(payload, netip.AddrPortFrom(netip.AddrFrom4(dst.Addr), uint16(dst.Port)), func(err error, n int) {
+			// the same destination in the forms an application may hold it in: built from four bytes, IPv4-mapped (what
+			// (*net.UDPAddr).AddrPort() gives for a resolved or parsed address), and through net.UDPAddr itself
+			to := netip.AddrPortFrom(netip.AddrFrom4(dst.Addr), uint16(dst.Port))
+			switch len(payload) % 3 {
+			case 1:
+				to = netip.AddrPortFrom(netip.AddrFrom16([16]byte{10: 0xff, 11: 0xff, 12: dst.Addr[0], 13: dst.Addr[1], 14: dst.Addr[2], 15: dst.Addr[3]}), uint16(dst.Port))
+			case 2:
+				to = (&net.UDPAddr{IP: net.IPv4(dst.Addr[0], dst.Addr[1], dst.Addr[2], dst.Addr[3]), Port: dst.Port}).AddrPort()
+			}
+			s.peer.AsyncWrite(payload, to, func(err error, n int) {
 				res = fmt.Sprintf("%s %d", errClass(err), n)
 			})
 		case "pc":
